@@ -106,8 +106,8 @@ theorem sum_rollback {f : Nat} {l : String} {a b : OP} {st : List Arg} {c : Ctx}
     parse (f + 1) (.sum l a b) st c = .ok (st2, [(l, .right (.recd r2))], lg2) := by
   cases e with
   | diverge => exact absurd rfl he
-  | other => simp only [parse, ha, hb]
-  | missing m => simp only [parse, ha, hb]
+  | other m => simp only [parse, ha, hb]
+  | missing m t => simp only [parse, ha, hb]
 
 /-- sum: both fail ⇒ `missing` only if both are `missing` -/
 theorem sum_both_fail {f : Nat} {l : String} {a b : OP} {st : List Arg} {c : Ctx} {e1 e2 : PErr}
@@ -115,28 +115,28 @@ theorem sum_both_fail {f : Nat} {l : String} {a b : OP} {st : List Arg} {c : Ctx
     parse (f + 1) (.sum l a b) st c = .error (combineErrors e1 e2) := by
   cases e1 with
   | diverge => exact absurd rfl h1
-  | other => simp only [parse, ha, hb]
-  | missing m => simp only [parse, ha, hb]
+  | other m => simp only [parse, ha, hb]
+  | missing m t => simp only [parse, ha, hb]
 
 /-- optional is transactional (after fix 6e48692): an inner `missing` — even one noticed after arguments were
 consumed — gives back the state exactly as it was and logs nothing; `other` errors are not swallowed -/
 theorem optional_missing_vs_other (f : Nat) (q : OP) (st : List Arg) (c : Ctx) :
-    (∀ m, parse f q st c = .error (.missing m) →
+    (∀ m t, parse f q st c = .error (.missing m t) →
       parse (f + 1) (.optional q) st c = .ok (st, q.labels.map fun l => (l, .none), [])) ∧
-    (parse f q st c = .error .other → parse (f + 1) (.optional q) st c = .error .other) ∧
+    (∀ t, parse f q st c = .error (.other t) → parse (f + 1) (.optional q) st c = .error (.other t)) ∧
     (∀ st' r lg, parse f q st c = .ok (st', r, lg) →
       parse (f + 1) (.optional q) st c = .ok (st', r.map fun (l, v) => (l, .some v), lg)) := by
-  refine ⟨fun m h => ?_, fun h => ?_, fun st' r lg h => ?_⟩ <;> simp only [parse, h]
+  refine ⟨fun m t h => ?_, fun t h => ?_, fun st' r lg h => ?_⟩ <;> simp only [parse, h]
 
 /-- the defect repaired by 6e48692, as a regression example: `optional(switch f * argument a)` on `["--f"]`
 keeps `--f` in the state (so that `parse` reports the leftover) instead of dropping it -/
-example : parse 10 (.optional (.prod (OP.switch "a" none "f") (.arg "b" .int))) [(0, "--f")] [] =
+example : parse 10 (.optional (.prod (OP.switch "a" none "f") (.arg "b" .int "b_arg" none))) [(0, "--f")] [] =
     .ok ([(0, "--f")], [("a", .none), ("b", .none)], []) := by rfl
 
 /-- `many` is transactional (after fix 6e48692): the state it returns is exactly the state on which the inner
 parser reports `missing` — not one from which the failed last attempt has already taken arguments -/
 theorem many_stops_at_missing : ∀ (f : Nat) (q : OP) (st : List Arg) (c : Ctx) {st' : List Arg} {r : Rec} {lg : Log},
-    parse f (.many q) st c = .ok (st', r, lg) → ∃ g m, parse g q st' c = .error (.missing m) := by
+    parse f (.many q) st c = .ok (st', r, lg) → ∃ g m t, parse g q st' c = .error (.missing m t) := by
   intro f
   induction f with
   | zero => intro q st c st' r lg h; simp [parse] at h
@@ -146,8 +146,8 @@ theorem many_stops_at_missing : ∀ (f : Nat) (q : OP) (st : List Arg) (c : Ctx)
     cases hq : parse f q st c with
     | error e =>
       cases e with
-      | missing m => simp [hq] at h; obtain ⟨rfl, _, _⟩ := h; exact ⟨f, m, hq⟩
-      | other => simp [hq] at h
+      | missing m t => simp [hq] at h; obtain ⟨rfl, _, _⟩ := h; exact ⟨f, m, t, hq⟩
+      | other t => simp [hq] at h
       | diverge => simp [hq] at h
     | ok t =>
       obtain ⟨st1, r1, lg1⟩ := t
@@ -203,8 +203,8 @@ theorem option_value_never_positional {st : List Arg} {c : Ctx} {x0 z : List Arg
   simp [skipped, hn] at h1
 
 /-- `argument::parse` consumes exactly what `next_arg` finds -/
-theorem argument_takes_next_arg {f : Nat} {l : String} {ty : VTy} {st : List Arg} {c : Ctx} {st' : List Arg} {r : Rec} {lg : Log}
-    (h : parse (f + 1) (.arg l ty) st c = .ok (st', r, lg)) :
+theorem argument_takes_next_arg {f : Nat} {l : String} {ty : VTy} {nm : String} {help : Option String} {st : List Arg} {c : Ctx}
+    {st' : List Arg} {r : Rec} {lg : Log} (h : parse (f + 1) (.arg l ty nm help) st c = .ok (st', r, lg)) :
     ∃ x y z, splitNext st c = some (x, y, z) ∧ st' = x ++ z ∧ lg = [(y.1, l)] ∧ convert ty y.2 = some ((r.map Prod.snd).headD .unit) := by
   simp only [parse, popArg] at h
   cases hs : splitNext st c with
@@ -221,13 +221,6 @@ theorem argument_takes_next_arg {f : Nat} {l : String} {ty : VTy} {st : List Arg
 
 /-! ## the help wrapper -/
 
-/-- `parse_help` with a long-name-only help switch (`default_help_switch`) answers with the help text **iff** the
-argument vector is exactly `[--<long>]`: the switch "and nothing else" (with anything else the sum's left branch
-leaves a leftover, which `parse_to_empty` reports as an error) -/
-theorem help_only_alone (f : Nat) (hlg : String) (p : OP) (args : List String) :
-    (∃ x, parseHelp (f + 2) none hlg p args = .ok x ∧ (match x with | .help => True | .result .. => False)) ↔
-      args = [flagName hlg false] := parseHelp_help_iff f hlg p args
-
 /-- **`parse_help`, any help switch** (with or without a short name): the answer is the help text iff the argument
 vector is exactly the switch — `[--<long>]` or `[-<short>]`.  In particular `--help -h`, `-h x` or `x --help` never
 give the help text. -/
@@ -236,8 +229,24 @@ theorem help_only_alone_any (f : Nat) (hsh : Option String) (hlg : String) (p : 
       args = [flagName hlg false] ∨ ∃ s, hsh = some s ∧ args = [flagName s true] :=
   parseHelp_help_iff_any f hsh hlg p args
 
-example : parseHelp 9 (some "h") "help" (.arg "a" .str) ["-h"] = .ok .help := by rfl
-example : parseHelp 9 (some "h") "help" (.arg "a" .str) ["-h", "--help"] = .error .error := by rfl
+/-- the special case of `default_help_switch()` (no short name): only `[--help]` -/
+theorem help_only_alone (f : Nat) (hlg : String) (p : OP) (args : List String) :
+    (∃ x, parseHelp (f + 2) none hlg p args = .ok x ∧ x.isHelp = true) ↔ args = [flagName hlg false] := by
+  rw [parseHelp_help_iff_any]
+  simp
+
+/-- the help text `parse_help` returns is the usage string of the wrapped parser (not of the sum it builds) -/
+theorem help_text_is_usage {g : Nat} {hsh : Option String} {hlg : String} {p : OP} {args : List String} {t : String}
+    (h : parseHelp g hsh hlg p args = .ok (.help t)) : t = p.usage := by
+  unfold parseHelp at h
+  split at h
+  · cases h
+  · injection h with h; injection h with h; exact h.symm
+  · cases h
+  · cases h
+
+example : parseHelp 9 (some "h") "help" (.arg "a" .str "file" none) ["-h"] = .ok (.help "file : string") := by rfl
+example : ∃ m, parseHelp 9 (some "h") "help" (.arg "a" .str "file" none) ["-h", "--help"] = .error (.error m) := ⟨_, rfl⟩
 
 /-! ## definitions -/
 
@@ -246,9 +255,13 @@ value type, disjoint names in products, distinct sub-command names), everywhere 
 theorem construct_ok_iff_wellformed (p : OP) : construct p = .ok () ↔ p.WellFormed := construct_iff p
 
 /-- the defect repaired by 986d19b as a regression example: `flag<L, std::string>` with distinct values constructs -/
-example : construct (.flag "a" none "mode" (.str "yes") (.str "no")) = .ok () := by rfl
-example : construct (.flag "a" none "mode" (.str "same") (.str "same")) = .error .optionsException := by rfl
-example : construct (.prod (OP.switch "a" none "f") (.opt "b" none "f" none .int)) = .error .duplicateNames := by rfl
+example : construct (.flag "a" none "mode" (.str "yes") (.str "no") none) = .ok () := by rfl
+example : construct (.flag "a" none "mode" (.str "same") (.str "same") none) =
+    .error ⟨.optionsException, "fcppt::options: The active and the inactive value must be different: same"⟩ := by rfl
+example : construct (.prod (OP.switch "a" none "f") (.opt "b" none "f" none .int none)) =
+    .error ⟨.duplicateNames, "fcppt::options: The following names appear multiple times in a product parser: [f]"⟩ := by
+  simp [construct, checkShortLong, OP.switch, OP.allNames, OP.flagNames, OP.optionNames, commonNames, toSet, insertSet, showList,
+    excText, bind, Except.bind, Val.beqBase]
 
 /-! ## termination -/
 
@@ -324,10 +337,10 @@ theorem parseTop_result_labels {f : Nat} {p : OP} {args : List String} {r : Rec}
 
 /-! ## non-vacuity -/
 
-example : parseTop 20 (.prod (.opt "a" none "o" none .int) (.arg "b" .str)) ["x", "--o", "5"] =
+example : parseTop 20 (.prod (.opt "a" none "o" none .int none) (.arg "b" .str "b_arg" none)) ["x", "--o", "5"] =
     .ok ([("a", .int 5), ("b", .str "x")], [(1, "a"), (2, "a"), (0, "b")]) := by rfl
-example : (OP.many (.prod (.unitSwitch "a" none "k") (.arg "b" .int))).wfMany = true := by rfl
-example : (OP.commands (.unit "a") [("go", "x", .arg "b" .int)]).WellFormed := by
+example : (OP.many (.prod (.unitSwitch "a" none "k") (.arg "b" .int "b_arg" none))).wfMany = true := by rfl
+example : (OP.commands (.unit "a") [("go", "x", none, .arg "b" .int "b_arg" none)]).WellFormed := by
   simp [OP.WellFormed, WellFormedSubs]
 example : splitNext [(0, "--o"), (1, "5"), (2, "-v"), (3, "x")] [("o", false)] = some ([(0, "--o"), (1, "5"), (2, "-v")], (3, "x"), []) := by rfl
 
